@@ -22,6 +22,10 @@ def endings(rng):
     E.append(('mid-utf8', Scenario(reads([g + server_frame(1, b'\xe2\x82', fin=0)]) + [('wait', 0, ('eof',))], {}, prate=0)))
     E.append(('utf8-error', Scenario(reads([g + server_frame(1, b'ab\xff')]) + [('wait', 0, ('eof',))], {}, prate=0)))
     E.append(('deflate-negotiated', Scenario(reads([gz + server_frame(1, b'plain')]) + [('wait', 0, ('eof',))], {}, prate=0)))
+    # permessage-deflate with BOTH no_context_takeover options; the connection ends on invalid deflate data inside a compressed message
+    gzz = sc.good_reply(b'Sec-WebSocket-Extensions: permessage-deflate; server_no_context_takeover; client_no_context_takeover\r\n')
+    E.append(('bad-deflate-no-takeover', Scenario(reads([gzz + server_frame(1, b'\xff\xff\xff\x07garbage', rsv1=1)]) + [('wait', 0, ('eof',))], {}, prate=0)))
+    E.append(('mid-deflate-no-takeover', Scenario(reads([gzz + server_frame(1, bytes.fromhex('f248cd'), rsv1=1, fin=0)]) + [('wait', 0, ('eof',))], {}, prate=0)))
     E.append(('while-closing', Scenario(reads([g + server_frame(1, b'x')]) + [('wait', 0, ('eof',))], {2: [('close', 1000, ('b', b'bye'))]}, prate=0)))
     E.append(('closing-timeout', Scenario(reads([g]) + [('wait', 5, None)] * 8, {2: [('close', 1000, ('b', b'bye'))]}, prate=0, ctimeout=10)))
     E.append(('server-closed', Scenario(reads([g + server_frame(8, close_payload(1000, b''))]) + [('wait', 0, ('eof',))], {}, prate=0)))
@@ -63,13 +67,13 @@ def explore(res, tier, seed, model_ok=True):
         s.key_seed = 40 + i          # the reply must answer THIS connection's key
         s.env = reads([s.good_reply()] + frames_after[0]) + frames_after[1]
         return s
-    def fxz(i):
+    def fxz(i, ext=b'permessage-deflate'):
         from refcodec import DeflatePeer
-        peer = DeflatePeer()
+        peer = DeflatePeer(server_no_takeover=b'server_no_context_takeover' in ext)
         s = Scenario([], {3: [('send_text', ('s', [104, 105, 104, 105]), True)]}, prate=0, compress=True)
         s.key_seed = 40 + i
         fr = b''.join(server_frame(1, peer.compress(m), rsv1=1) for m in (b'hello hello hello', b'hello again hello'))
-        s.env = reads([s.good_reply(b'Sec-WebSocket-Extensions: permessage-deflate\r\n') + fr]) + [('wait', 0, ('eof',))]
+        s.env = reads([s.good_reply(b'Sec-WebSocket-Extensions: ' + ext + b'\r\n') + fr]) + [('wait', 0, ('eof',))]
         return s
     fixed_next = [
         fx(0, ([server_frame(1, b'hello') + server_frame(0x1, '€'.encode())], [('wait', 0, ('eof',))]), prate=0),
@@ -82,6 +86,7 @@ def explore(res, tier, seed, model_ok=True):
         fx(5, ([], [('wait', 5, None)] * 4 + [('wait', 0, ('data', server_frame(10, b'')))] + [('wait', 5, None)] * 4 + [('wait', 0, ('eof',))]), prate=4, ptimeout=12, ctimeout=6),
         # negotiates compression itself (after a previous connection that did or did not) and receives/sends compressed messages
         fxz(6),
+        fxz(7, b'permessage-deflate; server_no_context_takeover; client_no_context_takeover'),
     ]
     nexts = fixed_next + nexts
     chains, meta = [], []
